@@ -10,6 +10,7 @@
 //! `recoverNode`) predicts every stamp, the oracle checks the property on the real deltas.
 use crate::enc::{hex, key_cmp, MCrdt, MLww, MRv};
 use crate::out::Out;
+use crate::redisx::{variant_info, Cover};
 use crate::rng::Rng;
 use crate::Args;
 use redis_sim::production::{ReplicatedShardActor, ReplicatedShardHandle};
@@ -86,23 +87,192 @@ pub fn run(a: &Args) {
     let rt = tokio::runtime::Builder::new_current_thread().enable_all().build().unwrap();
     rt.block_on(async {
         // corpus first: the DESIGN.md §6.1 history (checkpoint-only recovery, then a write)
-        history(&mut out, &mut Rng::new(0xC08), true).await;
-        for c in 0..3 {
+        let pool = variant_pool(&mut Rng::new(0xC08));
+        history(&mut out, &mut Rng::new(0xC08), Mode::Corpus(0), &pool).await;
+        // seeded/C08-flush-resets-lamport-clock: SET k ×3; FLUSHALL; SET k
+        history(&mut out, &mut Rng::new(0xC08), Mode::Corpus(1), &pool).await;
+        for c in 0..4 {
             system_history(&mut out, &mut Rng::new(0xC08), Some(c)).await;
+        }
+        // every Command variant goes through the real replicated actor at least once per run
+        let mut sweep: Vec<Command> = Vec::new();
+        {
+            let mut seen: std::collections::BTreeSet<&'static str> = std::collections::BTreeSet::new();
+            let mut r = rng.fork();
+            let mut idx: Vec<usize> = (0..pool.len()).collect();
+            r.shuffle(&mut idx);
+            for i in idx {
+                if seen.insert(variant_info(&pool[i]).0) {
+                    sweep.push(pool[i].clone());
+                }
+            }
+        }
+        {
+            let mut r = rng.fork();
+            system_sweep(&mut out, &mut r).await;
+        }
+        for chunk in sweep.chunks(16) {
+            let mut r = rng.fork();
+            history(&mut out, &mut r, Mode::Sweep(chunk.to_vec()), &pool).await;
         }
         for _ in 0..a.n {
             let mut r = rng.fork();
-            history(&mut out, &mut r, false).await;
+            history(&mut out, &mut r, Mode::Random, &pool).await;
         }
         for _ in 0..(a.n / 4).max(10) {
             let mut r = rng.fork();
             system_history(&mut out, &mut r, None).await;
         }
     });
-    out.finish("case = one node history of 5..40 ops on a real ReplicatedShardActor: local SET[EX]/DEL/HSET/HDEL on 3 colliding keys, remote deltas (dominated values from peers 2,3 with times around the local clock), snapshots, restarts that recover the snapshot as checkpoint values (ApplyRecoveredState) or as deltas or a subset; distinct by the op text of the history; non-trivial iff it contains an effective local write issued after a remote/recovered value of the same key. System-level case = one history of 3..12 ops (SET[EX]/DEL/HSET/HDEL/INCR on 6 keys over 4 of the 16 shards, gossip from a peer) on a real ReplicatedShardedState, then for every split point: fresh state, apply_recovered_state(checkpoint at the split [half of them through the real CheckpointWriter/Reader], own deltas after it), 3..5 writes, full snapshot; non-trivial iff some post-restart write lands on a shard that recovered something");
+    // coverage of the Command enum through the replicated actor / state
+    {
+        let mut rows: BTreeMap<String, serde_json::Value> = BTreeMap::new();
+        let mut samples = crate::c17::all_variants(&mut Rng::new(1), "k", "h", true);
+        samples.extend(crate::c17::not_executed_samples());
+        for c in &samples {
+            let (name, cover) = variant_info(c);
+            let n = out.dist.get(&format!("variant:{}", name)).copied().unwrap_or(0);
+            let ns = out.dist.get(&format!("sys:variant:{}", name)).copied().unwrap_or(0);
+            if !matches!(cover, Cover::NotExecuted(_)) && ((reachable_at_shard(c) && n == 0) || ns == 0) {
+                eprintln!("C08 coverage: variant {} did not go through the replicated actor / state (actor {}, state {})", name, n, ns);
+                std::process::exit(3);
+            }
+            rows.insert(name.to_string(), json!({"through_replicated_shard_actor": n, "through_replicated_sharded_state": ns}));
+        }
+        out.extra.insert("command_variants_through_replicated_actor".into(), json!(rows));
+        out.extra.insert("command_variants_total".into(), json!(rows.len()));
+    }
+    out.finish("case = one node history of 5..40 ops on a real ReplicatedShardActor: local SET[EX]/DEL/HSET/HDEL on 3 colliding keys, any other Command variant (every variant of the enum goes through the actor at least once per run: replicated writers, non-replicated writers, FLUSHDB/FLUSHALL and other key-less commands, reads — coverage table in the evidence), remote deltas (dominated values from peers 2,3 with times around the local clock), snapshots, restarts that recover the snapshot as checkpoint values (ApplyRecoveredState) or as deltas or a subset; distinct by the op text of the history; non-trivial iff it contains an effective local write issued after a remote/recovered value of the same key. System-level case = one history of 3..12 ops (SET[EX]/DEL/HSET/HDEL/INCR on 6 keys over 4 of the 16 shards, gossip from a peer) on a real ReplicatedShardedState, then for every split point: fresh state, apply_recovered_state(checkpoint at the split [half of them through the real CheckpointWriter/Reader], own deltas after it), 3..5 writes, full snapshot; non-trivial iff some post-restart write lands on a shard that recovered something");
 }
 
-async fn history(out: &mut Out, rng: &mut Rng, corpus: bool) {
+#[derive(Clone)]
+enum Mode {
+    Corpus(u8),
+    Random,
+    /// these commands, in order, interleaved with the ordinary ops
+    Sweep(Vec<Command>),
+}
+
+/// one instance pool of every executable `Command` variant (C17's `all_variants`) on the keys of
+/// this harness; a multi-key DEL becomes single-key (the shard actor hands back one delta per
+/// command; `ReplicatedShardedState::execute` splits it anyway)
+fn variant_pool(rng: &mut Rng) -> Vec<Command> {
+    crate::c17::all_variants(rng, KEYS[0], KEYS[1], true)
+        .into_iter()
+        .filter(reachable_at_shard)
+        .map(|c| match c {
+            Command::Del(ks) if ks.len() > 1 => Command::Del(vec![ks[0].clone()]),
+            c => c,
+        })
+        .collect()
+}
+
+/// what `ReplicatedShardedState::execute` hands to a shard actor: commands with a primary key and
+/// the fan-outs of `execute_global` (FLUSHDB / FLUSHALL / DBSIZE); every other key-less command
+/// (MULTI, EXEC, SELECT, CONFIG SET, SCRIPT FLUSH, …) is answered "ERR unknown command" by the
+/// state and never reaches an actor — those go through the state only (`system_sweep`)
+fn reachable_at_shard(c: &Command) -> bool {
+    c.get_primary_key().is_some() || matches!(c, Command::FlushDb | Command::FlushAll | Command::DbSize)
+}
+
+/// every executable variant once through a real `ReplicatedShardedState` (oracle only): commands
+/// the recorder does not know must ship nothing, and the stamps of the SETs in between keep growing
+async fn system_sweep(out: &mut Out, rng: &mut Rng) {
+    let (a, arx) = new_state(1, ConsistencyLevel::Eventual);
+    let keys = key_pool();
+    let all = crate::c17::all_variants(rng, &keys[0], &keys[1], true);
+    let mut seen: std::collections::BTreeSet<&'static str> = std::collections::BTreeSet::new();
+    let mut last: BTreeMap<usize, St> = BTreeMap::new();
+    let mut hist: Vec<String> = Vec::new();
+    let mut idx: Vec<usize> = (0..all.len()).collect();
+    rng.shuffle(&mut idx);
+    let mut n = 0;
+    for i in idx {
+        let c = &all[i];
+        let (name, _) = variant_info(c);
+        if !seen.insert(name) {
+            continue;
+        }
+        out.count(&format!("sys:variant:{}", name));
+        let _ = a.execute(c.clone()).await;
+        hist.push(name.to_string());
+        let known = matches!(c, Command::Set { .. } | Command::Del(_) | Command::Incr(_) | Command::Decr(_) | Command::IncrBy(..) | Command::DecrBy(..) | Command::Append(..) | Command::GetSet(..) | Command::HSet(..) | Command::HDel(..) | Command::HIncrBy(..));
+        for d in arx.drain() {
+            if !known {
+                out.violation(&format!("C08:unexpected-delta:{}", name), "a command the recorder is not known to replicate shipped a delta", json!({"history": hist.clone(), "key": d.key}));
+            }
+            let m = MRv::from_real(&d.value);
+            let e = last.entry(shard_of(&d.key)).or_insert((0, 0));
+            *e = (*e).max((m.t, m.r));
+        }
+        n += 1;
+        if n % 4 == 0 {
+            // a write in between: its stamp must exceed everything the shard issued so far
+            let k = rng.pick(&keys).clone();
+            let _ = a.execute(Command::set(k.clone(), SDS::new(b"x".to_vec()))).await;
+            hist.push(format!("SET {}", k));
+            for d in arx.drain() {
+                let m = MRv::from_real(&d.value);
+                let st = (m.t, m.r);
+                let sh = shard_of(&d.key);
+                if let Some(o) = last.get(&sh) {
+                    if !(*o < st) {
+                        out.violation("C08:issued-not-increasing", &format!("shard {}: SET acknowledged with stamp {:?} after {:?} (system sweep over every command variant)", sh, st, o), json!({"history": hist.clone()}));
+                    }
+                }
+                last.insert(sh, st);
+            }
+        }
+    }
+    out.case(&format!("SYS-SWEEP:{}", hist.join(",")), true);
+}
+
+/// the model op line of a command the recorder turned into a delta
+fn line_of(c: &Command, d: &ReplicationDelta, prev: Option<&MRv>) -> Option<(String, bool, &'static str)> {
+    let m = MRv::from_real(&d.value);
+    let hk = hex(d.key.as_bytes());
+    match c {
+        Command::Set { .. } | Command::Incr(_) | Command::Decr(_) | Command::IncrBy(..) | Command::DecrBy(..) | Command::Append(..) | Command::GetSet(..) => match &m.crdt {
+            MCrdt::Lww(l) => Some((format!("W {} {} {}", hk, hex(l.v.as_deref().unwrap_or(&[])), m.exp.map(|e| e.to_string()).unwrap_or("-".into())), true, "string-write")),
+            _ => None,
+        },
+        Command::HIncrBy(_, f, _) => match &m.crdt {
+            MCrdt::H(h) => {
+                let fname = String::from_utf8_lossy(f.as_bytes()).to_string();
+                h.get(&fname).map(|l| (format!("HW {} 1 {} {}", hk, hex(fname.as_bytes()), hex(l.v.as_deref().unwrap_or(&[]))), true, "hincrby"))
+            }
+            _ => None,
+        },
+        Command::HSet(_, fs) => {
+            let mut l = format!("HW {} {}", hk, fs.len());
+            for (f, v) in fs {
+                l.push_str(&format!(" {} {}", hex(String::from_utf8_lossy(f.as_bytes()).as_bytes()), hex(v.as_bytes())));
+            }
+            Some((l, !fs.is_empty(), "hset"))
+        }
+        Command::HDel(_, fs) => {
+            let names: Vec<String> = fs.iter().map(|f| String::from_utf8_lossy(f.as_bytes()).to_string()).collect();
+            let eff = match prev.map(|p| &p.crdt) {
+                Some(MCrdt::H(h)) => names.iter().any(|f| h.contains_key(f)),
+                _ => false,
+            };
+            let mut l = format!("HD {} {}", hk, names.len());
+            for f in &names {
+                l.push_str(&format!(" {}", hex(f.as_bytes())));
+            }
+            Some((l, eff, "hdel"))
+        }
+        Command::Del(_) => Some((format!("D {}", hk), matches!(prev.map(|p| &p.crdt), Some(MCrdt::Lww(_)) | Some(MCrdt::H(_))), "del")),
+        _ => None,
+    }
+}
+
+async fn history(out: &mut Out, rng: &mut Rng, mode: Mode, pool: &[Command]) {
+    let corpus = matches!(mode, Mode::Corpus(_));
+    let mut forced: std::collections::VecDeque<Command> = match &mode {
+        Mode::Sweep(v) => v.iter().cloned().collect(),
+        _ => Default::default(),
+    };
     let rid = 1u64;
     let causal = !corpus && rng.chance(1, 4);
     let level = if causal { ConsistencyLevel::Causal } else { ConsistencyLevel::Eventual };
@@ -114,11 +284,17 @@ async fn history(out: &mut Out, rng: &mut Rng, corpus: bool) {
     let mut last_issued: Option<St> = None;
     let mut nontrivial = false;
     let mut clock_guess = 0u64;
-    let steps = if corpus { 0 } else { rng.range(5, 40) };
+    let steps = if corpus { 0 } else if forced.is_empty() { rng.range(5, 40) } else { 3 * forced.len() as u64 + 4 };
     let mut script: Vec<u8> = Vec::new();
-    if corpus {
+    match mode {
         // 3 writes, restart from checkpoint only, write again
-        script = vec![0, 0, 0, 9, 0];
+        Mode::Corpus(0) => script = vec![0, 0, 0, 9, 0],
+        // 3 writes, FLUSHALL, write again
+        Mode::Corpus(_) => {
+            script = vec![0, 0, 0, 20, 0];
+            forced.push_back(Command::FlushAll);
+        }
+        _ => {}
     }
     let mut i = 0;
     loop {
@@ -126,8 +302,8 @@ async fn history(out: &mut Out, rng: &mut Rng, corpus: bool) {
             if i >= script.len() { break; }
             script[i]
         } else {
-            if i as u64 >= steps { break; }
-            rng.below(11) as u8
+            if i as u64 >= steps && forced.is_empty() { break; }
+            if !forced.is_empty() && (i % 3 == 2 || i as u64 >= steps) { 20 } else { rng.below(13) as u8 }
         };
         i += 1;
         let key = if corpus { "k".to_string() } else { rng.pick(&KEYS).to_string() };
@@ -218,6 +394,67 @@ async fn history(out: &mut Out, rng: &mut Rng, corpus: bool) {
                         }
                     }
                 }
+            }
+            11 | 12 | 20 => {
+                // any Command variant through the real actor (choice 20: the next forced one)
+                let cmd = if choice == 20 { forced.pop_front().unwrap() } else { rng.pick(pool).clone() };
+                let (vname, _) = variant_info(&cmd);
+                out.count(&format!("variant:{}", vname));
+                let pkey = cmd.get_primary_key().map(|k| k.to_string());
+                let before_k = pkey.as_ref().and_then(|k| before.get(k).map(MRv::from_real));
+                let (reply, delta) = node.h.execute(cmd.clone()).await;
+                if matches!(cmd, Command::FlushDb | Command::FlushAll) {
+                    text.push_str("FLUSH;");
+                    out.op("FLUSH".into(), "ok".into());
+                }
+                let Some(d) = delta else {
+                    out.count(if matches!(reply, redis_sim::redis::RespValue::Error(_)) { "variant:no-delta:error" } else { "variant:no-delta" });
+                    continue;
+                };
+                let Some((opline, eff, kind)) = line_of(&cmd, &d, before_k.as_ref()) else {
+                    out.violation(&format!("C08:unexpected-delta:{}", vname), "a command the recorder is not known to replicate handed back a delta", json!({"history": text.clone(), "command": format!("{:?}", cmd)}));
+                    continue;
+                };
+                out.count(&format!("variant-op:{}", kind));
+                let key = d.key.clone();
+                text.push_str(&opline);
+                text.push(';');
+                let m = MRv::from_real(&d.value);
+                out.op(opline, format!("eff={} delta {}", eff as u8, m.show()));
+                if eff {
+                    out.count("effective-local-write");
+                    let st = (m.t, m.r);
+                    clock_guess = clock_guess.max(st.0);
+                    for (o, prov) in observed.get(&key).cloned().unwrap_or_default() {
+                        if *prov != *"local" {
+                            nontrivial = true;
+                        }
+                        if !(o < st) {
+                            out.violation(
+                                &format!("C08:stale-stamp:after-{}", prov),
+                                &format!("local {} ({}) on key acknowledged with stamp {:?} although the node had observed stamp {:?} ({}) for that key", kind, vname, st, o, prov),
+                                json!({"history": text.clone(), "issued": [st.0, st.1], "observed": [o.0, o.1]}),
+                            );
+                            break;
+                        }
+                    }
+                    if let Some(li) = last_issued {
+                        if !(li < st) {
+                            out.violation("C08:issued-not-increasing", &format!("issued stamp {:?} after {:?}", st, li), json!({"history": text.clone()}));
+                        }
+                    }
+                    last_issued = Some(st);
+                }
+                let after = node.h.get_snapshot().await;
+                if let Some(v) = after.get(&key) {
+                    for s in stamps_of(&MRv::from_real(v)) {
+                        let e = observed.entry(key.clone()).or_default();
+                        if !e.iter().any(|(o, _)| *o == s) {
+                            e.push((s, "local"));
+                        }
+                    }
+                }
+                continue;
             }
             6 | 7 => {
                 // remote delta
@@ -500,6 +737,8 @@ async fn system_history(out: &mut Out, rng: &mut Rng, corpus: Option<u8>) {
     enum Pre {
         L(LocalOp),
         Remote(String, MRv),
+        /// a command without a model op of its own (key-less / not replicated); FLUSH* → `NFLUSH`
+        Other(Command),
     }
     let script: Vec<Pre> = match corpus {
         // SET k; SET k; DEL k: the last value is a tombstone
@@ -510,6 +749,14 @@ async fn system_history(out: &mut Out, rng: &mut Rng, corpus: Option<u8>) {
             Pre::L(LocalOp::HSet(k0.clone(), vec![("g".into(), b"2".to_vec())])),
             Pre::L(LocalOp::HDel(k0.clone(), vec!["f".into()])),
             Pre::L(LocalOp::Del(k0.clone())),
+        ],
+        // seeded/C08-flush-resets-lamport-clock: SET k ×3; FLUSHALL; SET k
+        Some(3) => vec![
+            Pre::L(LocalOp::Set(k0.clone(), b"v1".to_vec(), None)),
+            Pre::L(LocalOp::Set(k0.clone(), b"v2".to_vec(), None)),
+            Pre::L(LocalOp::Set(k0.clone(), b"v3".to_vec(), None)),
+            Pre::Other(Command::FlushAll),
+            Pre::L(LocalOp::Set(k0.clone(), b"after-flush".to_vec(), None)),
         ],
         // a peer's tombstone with a high stamp arrives by gossip, another key of the shard is written
         Some(_) => vec![
@@ -527,6 +774,17 @@ async fn system_history(out: &mut Out, rng: &mut Rng, corpus: Option<u8>) {
                         let m = peer_value(rng, tmax + 6);
                         tmax = tmax.max(m.t + 1);
                         Pre::Remote(rng.pick(&pool).clone(), m)
+                    } else if rng.chance(1, 8) {
+                        // key-less / whole-node commands through ReplicatedShardedState::execute
+                        Pre::Other(match rng.below(8) {
+                            0 | 1 => Command::FlushAll,
+                            2 => Command::FlushDb,
+                            3 => Command::ScriptFlush,
+                            4 => Command::ConfigSet("maxmemory".into(), "0".into()),
+                            5 => Command::Select(0),
+                            6 => Command::DbSize,
+                            _ => Command::MSet(vec![(rng.pick(&pool).clone(), SDS::new(val(rng)))]),
+                        })
                     } else {
                         Pre::L(gen_local(rng, &pool))
                     }
@@ -549,6 +807,17 @@ async fn system_history(out: &mut Out, rng: &mut Rng, corpus: Option<u8>) {
                     own.push(i);
                 }
             }
+            Pre::Other(c) => {
+                out.count(&format!("sys:variant:{}", variant_info(c).0));
+                let _ = a.execute(c.clone()).await;
+                for d in arx.drain() {
+                    out.violation(&format!("C08:unexpected-delta:{}", variant_info(c).0), "a command the recorder is not known to replicate shipped a delta", json!({"history": text.clone(), "key": d.key}));
+                }
+                if matches!(c, Command::FlushAll | Command::FlushDb) {
+                    text.push_str("NFLUSH;");
+                    out.op("NFLUSH".into(), "ok".into());
+                }
+            }
             Pre::Remote(k, m) => {
                 out.count("sys:op:remote");
                 a.apply_remote_deltas(vec![ReplicationDelta::new(k.clone(), m.to_real(), ReplicaId::new(m.r))]);
@@ -562,7 +831,7 @@ async fn system_history(out: &mut Out, rng: &mut Rng, corpus: Option<u8>) {
     }
     node_snap(out, &a).await;
     // the writes after the restart: the key written last, another key of its shard, then random
-    let last_key = script.iter().rev().find_map(|p| match p { Pre::L(op) => Some(op.key().to_string()), Pre::Remote(k, _) => Some(k.clone()) }).unwrap_or(k0.clone());
+    let last_key = script.iter().rev().find_map(|p| match p { Pre::L(op) => Some(op.key().to_string()), Pre::Remote(k, _) => Some(k.clone()), Pre::Other(_) => None }).unwrap_or(k0.clone());
     let mut post: Vec<LocalOp> = vec![LocalOp::Set(last_key.clone(), b"after".to_vec(), None)];
     if corpus == Some(1) {
         post = vec![LocalOp::HSet(last_key.clone(), vec![("f".into(), b"after".to_vec())])];
